@@ -85,6 +85,32 @@ class ToolRecorder:
         return [[k, v] for k, v in self.pe_tbl.items()], [[k, v] for k, v in self.xor_tbl.items()]
 
 
+def drift_values(ctx):
+    """inputs on which the drift-directed search saw the current tree differ from the baseline, and every value the shipped decoders are handed while scanning them"""
+    if not getattr(ctx, "diff_inputs", None):
+        return []
+    if getattr(ctx, "_drift_values", None) is None:
+        from multidecoder.multidecoder import Multidecoder
+        from scan_common import RecordingRegistry
+        reg = RecordingRegistry()
+        md = Multidecoder(decoders=reg.decoders)
+        vals = []
+        for data, depth in ctx.diff_inputs[:40]:
+            vals.append(data)
+            try:
+                with_timeout(lambda: md.scan(data, 10 if depth is None else depth), 20)
+            except Exception:  # noqa: BLE001
+                pass
+        seen = set(vals)
+        for _n, v, _h in reg.calls:
+            if v not in seen and len(seen) < 200:
+                seen.add(v)
+                vals.append(v)
+        ctx._drift_values = vals
+        ctx.count("drift_values", len(vals))
+    return list(ctx._drift_values)
+
+
 def run_decoder_probe(ctx, decoders, extra_inputs=(), n_regex=60, n_corpus=150, oracle=None, kinds=("indicator", "shell", "stack", "splice")):
     fns = registry_functions()
     for dn in decoders:
@@ -96,6 +122,7 @@ def run_decoder_probe(ctx, decoders, extra_inputs=(), n_regex=60, n_corpus=150, 
         inputs += regex_inputs(ctx.rng, DECODER_REGEX.get(dn, []), ctx.budget(n_regex, n_regex * 10))
         inputs += corpus_gen.gen_inputs(ctx.rng, ctx.budget(n_corpus, n_corpus * 10), kinds)
         inputs += boundary_inputs(ctx.rng, [d for d in inputs if 0 < len(d) < 400][: ctx.budget(6, 40)])
+        inputs += drift_values(ctx)
         inputs = [d for d in inputs if len(d) < 9000]
         args, outs = [], {}
         for d in inputs:
@@ -118,7 +145,8 @@ def run_decoder_probe(ctx, decoders, extra_inputs=(), n_regex=60, n_corpus=150, 
                 seen.add(id(a))
                 return outs[id(a)]
             try:
-                return with_timeout(lambda: impl_call(lambda: [node_val(h) for h in fn(a[1])]), 20)
+                fresh = bytes(bytearray(a[1]))      # a NEW bytes object with the same content (results must not depend on object identity)
+                return with_timeout(lambda: impl_call(lambda: [node_val(h) for h in fn(fresh)]), 20)
             except ScanTimeout:
                 return ["hang"]
         ctx.compare("decoder", args, impl_again,
